@@ -62,7 +62,7 @@ claim("C13", "Every loop named in the anchors is run symbolically with a fuel co
 claim("C15", "The AKAI mono stack (C01), the AKAI stereo pair through the real PipelineTranscoder and the CDDA drain are re-run with the backing file cut at a "
       "symbolic byte position: z3 shows the loop ends, every block is whole frames, every emitted byte is the byte the complete image yields at that PCM "
       "position and lies below the cut (no padding, no foreign bytes), and a sample whose sectors all lie below the cut is complete; partition scan keeps "
-      "the partitions before the first unparsable header." + E2E + "whole AKAI and S-770 images cut at solver-chosen positions, through the real entry points: "
+      "the partitions before the first unparsable header." + E2E + "whole AKAI (two partitions, two volumes, a file listed first but stored last) and S-770 images cut at solver-chosen positions, incl. inside a later partition's header, through the real entry points: "
       "every file stored before the cut is exported complete, every other exported file is a whole-frame prefix.", XT, "DESIGN.md 2/C15")
 
 claim("C02", "For each of the 7 loop modes (and an out-of-table mode byte) the real SampleFile.to_generalized is run over RolandFile(symbolic cluster pair) over the "
@@ -102,7 +102,7 @@ claim("C06", "The real make_export_name is executed on a symbolic name (all stri
       "on N symbolic sibling candidates assigns pairwise distinct names inside that language; the real combine_stereo_routine keeps N distinct names "
       "distinct except in the listed known-finding region (stem of a merged pair equals another name); joined components cannot leave the destination; "
       "and (CrossHair) every directory class - generic, AKAI image/volume, CDDA image, Roland performance/partial - applies both renaming routines to its "
-      "children exactly once." + E2E + "whole AKAI volumes / Roland performances / cue sheets whose sibling names are drawn by the solver from classes of awkward names (L/R look-alikes, dots, separators, blanks, duplicates) go through the real entry points; every exported channel is traced back to its sample by content; paths are distinct, safe, inside the destination and as many as the Exported lines.", ST + "; CrossHair for the per-level routine obligations and the name images", "DESIGN.md 2/C06")
+      "children exactly once." + E2E + "whole AKAI volumes / Roland performances / cue sheets whose sibling names are drawn by the solver from classes of awkward names (L/R look-alikes, dots, separators, blanks, duplicates) go through the real entry points - as sample names and, one or two levels up, as Roland performance (also orphan) and AKAI / Roland volume names; every exported channel is traced back to its sample by content; paths are distinct, safe, inside the destination and as many as the Exported lines.", ST + "; CrossHair for the per-level routine obligations and the name images", "DESIGN.md 2/C06")
 
 claim("C05", "The real combine_stereo_routine/combine_stereo run on N symbolic, pairwise distinct sibling names: z3 shows that exactly the pairs the statement "
       "defines (same name up to a final L/R preceded by blank or hyphen) are merged, with the L stream first whatever the order in the directory, named after "
